@@ -1,0 +1,11 @@
+//go:build verif
+
+package curl
+
+// VerifTransform exposes the build-selected transform (assembly on amd64 unless purego) to the runtime monitors in /verif.
+func VerifTransform(lto, hto, lfrom, hfrom *[StateSize]uint) { transform(lto, hto, lfrom, hfrom) }
+
+// VerifTransformGeneric exposes the portable transform to the runtime monitors in /verif.
+func VerifTransformGeneric(lto, hto, lfrom, hfrom *[StateSize]uint) {
+	transformGeneric(lto, hto, lfrom, hfrom)
+}
